@@ -249,3 +249,25 @@ Print Assumptions C06_wrong_packet_silent.
 Print Assumptions C06_wrong_packet_silent_bytes.
 Print Assumptions C06_wrong_packet_silent_state.
 Print Assumptions C06_wrong_packet_silent_state_bytes.
+
+(* ---- M3 (Conn/Sem3.v): the same for EVERY behaviour of the transport (free room following any schedule: writes accepted
+   in part, refused, never accepted again), every latency of localize(), every cancellation of a pending write or of a
+   pending missed-keep-alive verdict by the race.  Proofs in Conn/Sem3Proofs.v. ---- *)
+From Passage Require Import Lib.Bytes Codec.Desc Gen.PacketsGen Conn.Types Conn.Prog Conn.Sem1 Conn.Sem2 Conn.Sem3 Conn.Monitor Conn.Order Conn.Checks Conn.Switch Conn.Sem3Proofs.
+
+Theorem C06_order_backpressure : forall o cfg e encf loclat cap sch s,
+  ok step_order m_init (untime (trace_of (run3 o cfg e encf loclat cap sch s))).
+Proof. exact run3_order_ok. Qed.
+
+Theorem C06_backpressure : forall o cfg e encf loclat cap sch s,
+  ok (step_with chk_c06) m_init (untime (trace_of (run3 o cfg e encf loclat cap sch s))).
+Proof. exact run3_c06_ok. Qed.
+
+Theorem C06_verdict_stands : forall o cfg e encf loclat cap sch s pre loc post,
+  untime (trace_of (run3 o cfg e encf loclat cap sch s)) = pre ++ TCall (CLocalize loc key_timeout) :: post ->
+  timeout_tail post = true.
+Proof. exact run3_verdict_stands. Qed.
+
+Print Assumptions C06_order_backpressure.
+Print Assumptions C06_backpressure.
+Print Assumptions C06_verdict_stands.
